@@ -248,6 +248,59 @@ def jordans_coverage(ctx, out):
                     where=fn.where())
             continue
         out.ok(fn.qname, "jordans covers the curves of every subshape", where=fn.where())
+    single_curve_projection(ctx, out)
+
+
+# `x.jordans[k]` on a shape that may have several boundary curves: legitimate only where just one curve is wanted
+SINGLE_CURVE_OK = {
+    "shape.DisjointShape.subshapes:set": "secondary sort key: length of the first curve of each component (not a region)",
+}
+
+
+def _narrowed_to_simple(fn, name, node):
+    """an earlier `if not isinstance(name, SimpleShape): return/raise` dominates the use"""
+    for st in fn.node.body:
+        if getattr(st, "lineno", 0) >= node.lineno:
+            break
+        if isinstance(st, ast.If) and st.body and isinstance(st.body[-1], (ast.Return, ast.Raise)) and not st.orelse:
+            t, neg = pat._strip_not(st.test)
+            if neg and isinstance(t, ast.Call) and isinstance(t.func, ast.Name) and t.func.id == "isinstance" \
+                    and pat.is_name(t.args[0], name) and isinstance(t.args[1], ast.Name) and t.args[1].id == "SimpleShape":
+                return True
+        if isinstance(st, ast.Assert):
+            t = st.test
+            if isinstance(t, ast.Call) and isinstance(t.func, ast.Name) and t.func.id == "isinstance" \
+                    and pat.is_name(t.args[0], name) and isinstance(t.args[1], ast.Name) and t.args[1].id == "SimpleShape":
+                return True
+    return False
+
+
+def single_curve_projection(ctx, out):
+    """no function treats one boundary curve of a possibly multi-curve shape as if it were the whole boundary"""
+    n = 0
+    for q, fn in sorted(ctx.model.funcs.items()):
+        if fn.mod not in ("shape", "plot", "primitive"):
+            continue
+        inf = ctx.typer.of(fn)
+        for node in ast.walk(fn.node):
+            if isinstance(node, ast.Subscript) and not isinstance(node.slice, ast.Slice) \
+                    and isinstance(node.value, ast.Attribute) and node.value.attr == "jordans":
+                t = inf.typeof(node.value.value)
+                classes = ctx.typer.classes_of(t)
+                n += 1
+                recv = node.value.value
+                narrowed = isinstance(recv, ast.Name) and _narrowed_to_simple(fn, recv.id, node)
+                if not classes and not narrowed:
+                    continue          # receiver of unknown static type: not decided here
+                if narrowed or all(c == "SimpleShape" for c in classes):
+                    out.ok(q, f"`{U(node)}` on a SimpleShape (one curve)", where=fn.where(node), nontrivial=False)
+                elif q in SINGLE_CURVE_OK:
+                    out.ok(q, f"`{U(node)}`: {SINGLE_CURVE_OK[q]}", where=fn.where(node))
+                else:
+                    out.bad(q, "one boundary curve of a shape that may have several is used for the whole shape",
+                            where=fn.where(node), detail=f"`{U(node)}` with receiver type {t}: holes / further components "
+                                                         f"are silently dropped")
+    return n
 
 
 def r09_4(ctx):
